@@ -158,6 +158,19 @@ def unsupported_config(c):
     return False
 
 
+def impossible_mountpoint(c):
+    """a mount point beneath the output path with a non-directory on the host somewhere above it: no container can
+    look like that (the mount could not have been made); the property says nothing, only model = implementation
+    is checked (this is how mounted content and host content come to claim the same output path)"""
+    for root in c.mounts:
+        if len(root) > len(c.ctr_out) and root[:len(c.ctr_out)] == c.ctr_out:
+            for k in range(len(c.ctr_out) + 1, len(root)):
+                n = c.host.get(HOSTOUT + root[len(c.ctr_out):k])
+                if n is not None and n[0] != "d":
+                    return True
+    return False
+
+
 def mount_above(c):
     """a mount whose mount point is a proper prefix of the output path (shape of finding F17c)"""
     return any(len(root) < len(c.ctr_out) and c.ctr_out[:len(root)] == root for root in c.mounts)
@@ -496,6 +509,8 @@ def oracle(case, impl):
         return "copy did not end with a manifest or an error: " + impl[:200]
     if unsupported_config(c):
         return None if impl == "skip-config" else "configuration outside the quantifier was run: " + impl[:100]
+    if impossible_mountpoint(c):
+        return None
     v = view_of(case)
     if impl.startswith("err "):
         if v.bad or v.cycle or v.free or v.max_used > LIMIT:
@@ -750,6 +765,14 @@ class Gen:
             self.mounts.append((root, "collection", flags, coll, mp))
         if r.random() < 0.06 and not self.profile.get("clean"):
             self.mounts.append(("/c17other", r.choice(["waz", "git_tree"]), "", None, ""))
+        if r.random() < self.profile.get("collide", 0.02) and not self.profile.get("clean"):
+            # mounted content and host content claim the same output path: a collection mounted at f/m where the
+            # host has a regular file f (empty or not) - the copier lays host files over the loaded manifest
+            n = self.name_for(())
+            if n is not None:
+                self.add((n,), "f", (self.fresh_seed(), r.choice([0, 0, 3])))
+                ci = self.gen_coll()
+                self.mounts.append((self.ctr_out + "/" + n + "/m", "collection", "", ci, ""))
         if r.random() < self.profile.get("above", 0.03) and self.ctr_out.count("/") >= 2:
             # a collection mounted above the output path (its mount point is the output path's parent)
             ci = self.gen_coll()
